@@ -121,7 +121,7 @@ def oracle_serve(pid, sc, ob):
                 if e["kind"] == "D":
                     done += len(e["data"])
         return None
-    if pid == "C01":
+    if pid == "C01" and sc.get("method", "GET") == "GET":
         tot_all = sum(len(e["data"]) for e in evs if e["kind"] == "D")
         cl = hd.get("content-length")
         ann = int(cl[0]) if cl else (evs[0]["lower"] if evs else 0)
@@ -405,6 +405,8 @@ def rfc_resolve(value, L):
 
 
 def oracle_range(pid, sc, ob):
+    if sc.get("method", "GET") not in ("GET", "HEAD"):
+        return None
     hd = {}
     for k, v in ob["headers"]:
         hd.setdefault(k, []).append(v)
@@ -603,8 +605,181 @@ FAMILIES[("cond", "any_match")] = ("serve_witness", fam_cond)
 FAMILIES[("cond", "none_match")] = ("serve_witness", fam_cond)
 
 
+
+# ---------------------------------------------------------------- whole-response oracles (C02, C05, C06, C14, C15) for native replays
+def content_byte(p):
+    return ((p * 31 + 7) % (2 ** 64)) % 251
+
+
+def entity_bytes(a, b):
+    return bytes(content_byte(p) for p in range(a, b))
+
+
+def _hd(ob):
+    hd = {}
+    for k, v in ob["headers"]:
+        hd.setdefault(k, []).append(v)
+    return hd
+
+
+def _body(ob):
+    ft = first_terminal(ob["events"])
+    evs = ob["events"] if ft is None else ob["events"][:ft]
+    return b"".join(e["data"] for e in evs if e["kind"] == "D"), (None if ft is None else ob["events"][ft]["kind"])
+
+
+def effective_ranges(sc):
+    """Resolved ranges after the If-Range gate (C05), or None when the Range header is ignored / absent / ungrammatical."""
+    h = dict(sc.get("headers", []))
+    if "range" not in h:
+        return None
+    if "if-range" in h:
+        ir, et = h["if-range"], sc.get("etag")
+        if not (et is not None and ir == et and not et.startswith("W/") and ir.startswith('"')):
+            return None
+    return rfc_resolve(h["range"], sc["len"])
+
+
+def oracle_whole(pid, sc, ob):
+    if ob["panic"] is not None or sc.get("len", 0) > 4096:
+        return None
+    if expected_cond(sc) in (412, 304, "skip"):
+        if pid == "C14" and expected_cond(sc) in (412, 304):
+            return _c14(sc, ob)
+        return None
+    hd, st, L = _hd(ob), ob["status"], sc["len"]
+    method = sc.get("method", "GET")
+    if method not in ("GET", "HEAD"):
+        return None
+    want = effective_ranges(sc)
+    body, term = _body(ob)
+    cr = hd.get("content-range", [None])[0]
+    if pid == "C05" and "if-range" in dict(sc.get("headers", [])):
+        if want is None and (st != 200 or cr is not None):
+            return "If-Range does not match a strong ETag but the response is %d %r" % (st, cr)
+        if want is not None and len(want) == 1 and st != 206:
+            return "matching strong If-Range but status %d" % st
+        return None
+    if pid == "C02" and method == "GET" and term == "N":
+        if st == 200 and body != entity_bytes(0, L):
+            return "200 body differs from the entity bytes"
+        if st == 206 and cr is not None:
+            m = _re.fullmatch(rb"bytes (\d+)-(\d+)/(\d+)", cr)
+            if m and body != entity_bytes(int(m.group(1)), int(m.group(2)) + 1):
+                return "206 body is not entity bytes %s" % cr.decode()
+        return None
+    if pid == "C06" and st == 206 and cr is None:
+        ct = hd.get("content-type", [b""])[-1]
+        if not ct.startswith(b"multipart/byteranges; boundary="):
+            return "multi-range 206 without multipart/byteranges content type: %r" % ct
+        if want is None or len(want) < 2:
+            return "multipart response but the request does not select several ranges"
+        if method != "GET" or term != "N":
+            return None
+        eh = b"" if "if-range" in dict(sc.get("headers", [])) else b"".join(k.encode() + b": " + (v if isinstance(v, bytes) else v.encode("latin1")) + b"\r\n" for k, v in sc.get("entity_headers", []))
+        exp = b""
+        for a, e in want:
+            exp += b"\r\n--B\r\nContent-Range: bytes %d-%d/%d\r\n" % (a, e - 1, L) + eh + b"\r\n" + entity_bytes(a, e)
+        exp += b"\r\n--B--\r\n"
+        if body != exp:
+            return "multipart body differs from the expected parts (got %d bytes, expected %d)" % (len(body), len(exp))
+        cl = hd.get("content-length", [b"-1"])[0]
+        if int(cl) != len(exp):
+            return "multipart Content-Length %s but body has %d bytes" % (cl.decode(), len(exp))
+        return None
+    if pid == "C14":
+        return _c14(sc, ob)
+    return None
+
+
+def _c14(sc, ob):
+    hd, st = _hd(ob), ob["status"]
+    if st not in (200, 206, 304, 412, 416):
+        return None
+    if hd.get("accept-ranges") != [b"bytes"]:
+        return "missing Accept-Ranges: bytes on %d" % st
+    et = sc.get("etag")
+    if (et is not None) != ("etag" in hd) or (et is not None and hd["etag"] != [et.encode("latin1")]):
+        return "ETag not exposed unchanged on %d" % st
+    lm = sc.get("lm")
+    if lm and not lm.startswith("now"):
+        if "date" not in hd or "last-modified" not in hd:
+            return "Date / Last-Modified missing on %d" % st
+        if hd["last-modified"] != [http_date(int(lm.split(".")[0])).encode()]:
+            return "Last-Modified %r is not the modification time truncated to the second" % hd["last-modified"]
+    ehs = [k for k, _ in sc.get("entity_headers", [])]
+    has = all(k in hd for k in ehs)
+    none = not any(k in hd for k in ehs)
+    if ehs:
+        if st == 200 and not has:
+            return "200 without the entity's headers"
+        if st == 206 and "if-range" not in dict(sc.get("headers", [])) and "content-range" in hd and not has:
+            return "206 (no If-Range) without the entity's headers"
+        if st in (304, 412, 416) and not none:
+            return "%d carries entity headers" % st
+    return None
+
+
+def oracle_pair_c15(sc_get, ob_get, sc_head, ob_head):
+    if ob_get["panic"] is not None or ob_head["panic"] is not None:
+        return None
+    if ob_get["status"] != ob_head["status"]:
+        return "HEAD status %d differs from GET status %d" % (ob_head["status"], ob_get["status"])
+    strip = lambda ob: sorted((k, v) for k, v in ob["headers"] if k not in ("date", "last-modified"))
+    if strip(ob_get) != strip(ob_head):
+        return "HEAD headers differ from GET headers: %r vs %r" % (strip(ob_head), strip(ob_get))
+    body, _ = _body(ob_head)
+    if ob_head["status"] in (200, 206, 304, 416) and body:
+        return "HEAD response has a body"
+    if ob_head["calls"]:
+        return "HEAD asked the entity for bytes %r" % (ob_head["calls"],)
+    return None
+
+
+def fam_glue():
+    out = []
+    k = 0
+    L = 1000
+    LM = 1000000000
+    ranges = [None, "bytes=0-9", "bytes=5-", "bytes=-7", "bytes=990-2000", "bytes=1000-", "bytes=0-1,5-6", "bytes=0-0,-1,10-19", "bytes=0-600,100-700", "bytes=5-6, 0-1", "items=0-5", "bytes=abc", "bytes=0-1,2000-", "bytes=-0"]
+    ifr = [None, '"x"', 'W/"x"', '"y"', http_date(LM), '"x', "garbage"]
+    for et in (None, '"x"', 'W/"x"'):
+        for rg in ranges:
+            for ir in ifr:
+                for eh in ([], [("content-type", "text/plain"), ("x-extra", "a b")]):
+                    hs = []
+                    if rg is not None: hs.append(("range", rg))
+                    if ir is not None: hs.append(("if-range", ir))
+                    k += 1
+                    base = {"headers": hs, "len": L, "etag": et, "lm": "%d.250000000" % LM, "entity_headers": eh, "scripts": [], "extra_polls": 1}
+                    out.append(dict(base, id="gl%d" % k, method="GET"))
+                    out.append(dict(base, id="gl%d:h" % k, method="HEAD"))
+    for m in ("POST", "PUT", "OPTIONS", "FOO"):
+        k += 1
+        out.append({"id": "gl%d" % k, "method": m, "headers": [("range", "bytes=0-1")], "len": L, "etag": '"x"', "lm": "%d.0" % LM, "scripts": [], "extra_polls": 0})
+    return out
+
+
+def oracle_method(pid, sc, ob):
+    if pid != "C13" or sc.get("method", "GET") in ("GET", "HEAD") or ob["panic"] is not None:
+        return None
+    hd = _hd(ob)
+    if ob["status"] != 405:
+        return "method %s got %d, expected 405" % (sc["method"], ob["status"])
+    allow = b",".join(hd.get("allow", [])).lower()
+    if b"get" not in allow or b"head" not in allow:
+        return "405 without Allow naming GET and HEAD: %r" % allow
+    if ob["calls"]:
+        return "405 but the entity was read"
+    return None
+
+
+for _fn in ("serve_inner", "serve", "prepare_multipart"):
+    FAMILIES[("glue", _fn)] = ("serve_witness", lambda: fam_glue() + fam_cond()[::7] + fam_range_headers()[::3])
+
+
 def all_serve_oracles(pid, sc, o):
-    return oracle_serve(pid, sc, o) or oracle_range(pid, sc, o) or oracle_cond(pid, sc, o)
+    return oracle_serve(pid, sc, o) or oracle_method(pid, sc, o) or oracle_range(pid, sc, o) or oracle_cond(pid, sc, o) or oracle_whole(pid, sc, o)
 
 
 def try_upgrade(pid, ob, repo=None):
@@ -622,6 +797,16 @@ def try_upgrade(pid, ob, repo=None):
     is_stream = test == "stream_witness"
     mk = stream_line if is_stream else scenario_line
     lines = run_native(test, [mk(x) for x in scs], repo)
+    if pid == "C15" and not is_stream:
+        byid = {sc["id"]: (sc, parse_obs(ln)) for sc, ln in zip(scs, lines)}
+        for i, (sc, o) in byid.items():
+            if i + ":h" in byid:
+                why = oracle_pair_c15(sc, o, *byid[i + ":h"])
+                if why:
+                    sh = byid[i + ":h"][0]
+                    ob["native_replay"] = {"status": "reproduced on the real code", "reproduced": True, "test": test, "scenario": sh, "scenario_line": mk(sh),
+                                           "paired_with": mk(sc), "violates": pid, "what": why, "searched": len(scs)}
+                    return
     for sc, ln in zip(scs, lines):
         why = oracle_stream(pid, sc, parse_stream_obs(ln)) if is_stream else all_serve_oracles(pid, sc, parse_obs(ln))
         if why:
@@ -671,15 +856,22 @@ if __name__ == "__main__":
                         print(pid, why, stream_line(sc), "\n   ", ln)
         print(len(scs), "scenarios; oracle failures:", bad)
         sys.exit(0)
-    scs = {"mp": fam_multipart_faults, "sg": fam_single_faults, "rg": fam_range_headers, "cd": fam_cond}[fam]()
+    scs = {"mp": fam_multipart_faults, "sg": fam_single_faults, "rg": fam_range_headers, "cd": fam_cond, "gl": fam_glue}[fam]()
     lines = run_native("serve_witness", scs)
     bad = 0
     for sc, ln in zip(scs, lines):
         o = parse_obs(ln)
-        for pid in ("C01", "C02", "C03", "C04", "C07", "C12", "C13", "C20"):
+        for pid in ("C01", "C02", "C03", "C04", "C05", "C06", "C07", "C12", "C13", "C14", "C20"):
             why = all_serve_oracles(pid, sc, o)
             if why:
                 bad += 1
                 if bad < 15:
                     print(pid, why, scenario_line(sc), "\n   ", ln)
+    byid = {sc["id"]: (sc, parse_obs(ln)) for sc, ln in zip(scs, lines)}
+    for i, (sc, o) in byid.items():
+        if i + ":h" in byid:
+            why = oracle_pair_c15(sc, o, *byid[i + ":h"])
+            if why:
+                bad += 1
+                print("C15", why, scenario_line(sc))
     print(len(scs), "scenarios", bad, "oracle failures")
